@@ -426,11 +426,33 @@ def C16_getitem_full : Prop :=
   ∀ (p : Obj Nat) (ixs : List Ix) (r : Obj Nat),
     p.cls.isUnyt = true → p.res.Good → getitem 0 p ixs = .ok r → r.res.Good
 
-/-- **C16 for indexing, partial** — guard: the parent is not a non-scalar quantity.  Array-class
-    parents of every shape and every index form give items that meet the property -/
+/-- indexing a scalar quantity (newaxis, Ellipsis, boolean scalars, `()`): at most one element,
+    so the item meets the property whatever its class -/
+theorem getitem_scalar_parent_good (nu : U) (p : Obj U) (ixs : List Ix) (r : Obj U)
+    (hs : p.shape = []) (hq : p.cls.isQuantity = true) (hv : ∀ ix ∈ ixs, ix.validScalarMask)
+    (h : getitem nu p ixs = .ok r) : r.res.Good := by
+  have ho := getitem_ok nu p ixs r h
+  have hsz : size r.shape ≤ 1 := by
+    have := ho.1; rw [hs] at this
+    exact index_scalar_parent_size ixs r.shape hv this
+  refine ⟨fun hnil => ?_, fun hgt => ?_⟩
+  · rcases ho.2.2 with ⟨hc, _⟩ | ⟨_, hne⟩
+    · show r.cls.isQuantity = true; rw [hc]; exact uquantity_is_quantity
+    · exact absurd hnil hne
+  · exact absurd hgt (by show ¬ size r.shape > 1; omega)
+
+/-- **C16 for indexing, partial** — guard: the parent is not a non-scalar quantity (its class
+    is an array class, or it is 0-d).  For every such parent, of every shape, and every index
+    form, the item meets the property -/
 theorem C16_getitem_partial (nu : U) (p : Obj U) (ixs : List Ix) (r : Obj U)
-    (hguard : p.cls.isQuantity = false) (h : getitem nu p ixs = .ok r) : r.res.Good :=
-  strict_good _ (getitem_array_parent_strict nu p ixs r hguard h)
+    (hguard : p.cls.isQuantity = false ∨ p.shape = [])
+    (hv : ∀ ix ∈ ixs, ix.validScalarMask) (h : getitem nu p ixs = .ok r) : r.res.Good := by
+  cases hq : p.cls.isQuantity with
+  | false => exact strict_good _ (getitem_array_parent_strict nu p ixs r hq h)
+  | true =>
+    rcases hguard with hg | hg
+    · rw [hq] at hg; cases hg
+    · exact getitem_scalar_parent_good nu p ixs r hg hq hv h
 
 /-- the excluded region is real: the size-1 quantity `q[None]` (shape `(1,)`, which meets the
     property) indexed with the integer array `[0, 0]` is a 2-element `unyt_quantity` -/
